@@ -100,10 +100,12 @@ var positions = []position{
 }
 
 type translated struct {
-	ok     bool
-	err    string
-	sql    string
-	params map[string]any
+	ok      bool
+	err     string
+	sql     string
+	params  map[string]any
+	comment string // what translate.FromCypher (the driver's entry point) writes in front of the statement: the query as a comment
+	hasCmt  bool
 }
 
 func run(text string, params map[string]any, mapper *pgutil.InMemoryKindMapper) (out translated) {
@@ -124,7 +126,20 @@ func run(text string, params map[string]any, mapper *pgutil.InMemoryKindMapper) 
 	if err != nil {
 		return translated{err: "format: " + err.Error()}
 	}
-	return translated{ok: true, sql: sql, params: res.Parameters}
+	out = translated{ok: true, sql: sql, params: res.Parameters}
+	// the driver's entry point prefixes the statement with the query text as a -- comment
+	if q2, perr := frontend.ParseCypher(frontend.NewContext(), text); perr == nil {
+		if f, ferr := translate.FromCypher(context.Background(), q2, mapper, false, 1); ferr == nil {
+			if i := strings.Index(f.Statement, sql); i >= 0 && strings.TrimSpace(f.Statement[i+len(sql):]) == "" {
+				out.comment, out.hasCmt = f.Statement[:i], true
+			} else if j := strings.LastIndex(f.Statement, "\nwith "); j >= 0 {
+				out.comment, out.hasCmt = f.Statement[:j+1], true
+			} else if j := strings.LastIndex(f.Statement, "\nselect "); j >= 0 {
+				out.comment, out.hasCmt = f.Statement[:j+1], true
+			}
+		}
+	}
+	return out
 }
 
 func chars(s string) []string {
@@ -310,6 +325,12 @@ func injectPosition(pos position, payloads []Payload, mapper *pgutil.InMemoryKin
 		h := run(text, params, kindMapper(p))
 		ev := map[string]any{"e": "inject", "pos": pos.name, "kind": kind, "inner": inner, "payload": []string(pl), "benign": chars(benign), "text": text, "benign_ok": b.ok, "hostile_ok": h.ok,
 			"err": h.err, "panic": strings.HasPrefix(h.err, "panic"), "aligned": false, "bws": [][]string{}, "hws": [][]string{}, "same_sql": false, "value_bound": false}
+		if h.ok && h.hasCmt {
+			cw := chars(h.comment)
+			if len(cw) <= 2000 {
+				evs = append(evs, map[string]any{"e": "comment", "pos": pos.name, "payload": []string(pl), "text": text, "prefix": cw})
+			}
+		}
 		if b.ok && h.ok {
 			ev["same_sql"] = b.sql == h.sql
 			switch kind {
